@@ -2178,6 +2178,23 @@ v("C19", "methodless-service-skipped", "cmd/protoc-gen-grpchan/protoc-gen-grpcha
 			continue
 		}
 		svcName := names.CamelCase(sd.GetName())""", "R2", "registration-for-every-service", "a service without methods gets no registration function")
+v("C20", "client-send-without-peer-done-arm", "inprocgrpc/in_process.go",
+  "	return writeMessage(s.ctx, s.svrCtx, s.requests, frame{data: m})", """	var peerDone context.Context
+	if s.responseStream {
+		peerDone = s.svrCtx
+	}
+	return writeMessage(s.ctx, peerDone, s.requests, frame{data: m})""", "R5", "selects-on-peer-done", "the server-done arm is dropped for some methods")
+v("C20", "client-send-same-context-twice", "inprocgrpc/in_process.go",
+  "	return writeMessage(s.ctx, s.svrCtx, s.requests, frame{data: m})", "	return writeMessage(s.ctx, s.ctx, s.requests, frame{data: m})", "R5", "two-different-contexts", "the call's context is passed in the server-done position")
+v("C20", "header-accessor-keeps-receiving", "inprocgrpc/in_process.go",
+  """			s.state = streamStateMessages
+			switch m.kind() {
+			case kindHeaders:
+				s.headers = m.headers""", """			switch m.kind() {
+			case kindHeaders:
+				s.state = streamStateMessages
+				s.headers = m.headers""", "R6", "leaves-the-receiving-state", "Header() stays in the header-waiting state when it sets a non-header frame aside")
+
 # ------------------------------------------------------------------ wave-2 rules (C15-C20)
 v("C15", "methods-scratch-slice-reused", "server.go",
   """	for _, svc := range m {
